@@ -20,12 +20,16 @@ LEVEL_TEXT = ("Bounded contract checking of the statement on the real Pipeline: 
               "one of its names, each picked by that name, every other entry untouched; the output_picker is an "
               "assumed pure callable) and Pipeline._get_func_args (every parameter gets its bound value, else the "
               "supplied keyword, else the upstream output, else the default, and ValueError exactly when none "
-              "exists; the recursive Pipeline._run is an assumed contract). Category 'other' = a few "
+              "exists; the recursive Pipeline._run is an assumed contract) and, for the cache-free path, "
+              "Pipeline._run itself (an output already computed in this evaluation is returned unchanged and nothing "
+              "runs; otherwise the value is the producer applied to the resolved arguments, one element of it for a "
+              "tuple output; _execute_func, root_args, _current_cache, task_graph are assumed). Category 'other' = a few "
               "discharged leaf contracts + bounded checking of the statement; it is not a proof of C02.")
 LEVEL_NOTE = ("Bounds: 1..4 functions (quick 1..3 for the all-orders part), <=3 parameters each, roots {x,y,z}; values are "
               "tagging strings. Trusted: the reference evaluator rtc/dag.py::refeval; networkx.")
 TECHNIQUE = ("bounded contract checking of the statement-level contract (tagging bodies + reference evaluator); leaf "
-             "at_least_tuple, _default_output_picker, _update_all_results and _get_func_args discharged by z3")
+             "at_least_tuple, _default_output_picker, _update_all_results, _get_func_args and the cache-free "
+             "Pipeline._run discharged by z3")
 EXPLANATION = LEVEL_TEXT
 RULE = ("random DAGs from rtc.dag.gen_dag; per DAG all outputs x all arg_combinations x all listing orders (n<=3) x "
         "{pipeline(), run, func}; distinct = distinct (DAG, order, output, combination); non-trivial = the evaluation "
@@ -37,7 +41,7 @@ ASSUMPTIONS = ["user functions deterministic", "values compared as strings"]
 def registry():
     from contracts import misc, pipeline_call
     allc = misc.ALL + pipeline_call.ALL
-    return {**{c.short: c for c in allc}, **{c.name: c for c in allc}}
+    return {**{c.short: c for c in allc}, **{c.name: c for c in allc}, **pipeline_call.registry_entries()}
 
 
 def _alt_gen(rng, tier):
@@ -60,7 +64,10 @@ def proof_items():
             # routing tuple outputs by name: how a function's result enters the results of one evaluation
             ProofItem(pipeline_call.update_all_results, gen=pipeline_call.gen),
             # the resolution order: bound value, else supplied keyword, else upstream output, else default
-            ProofItem(pipeline_call.get_func_args, gen=pipeline_call.gfa_gen)]
+            ProofItem(pipeline_call.get_func_args, gen=pipeline_call.gfa_gen),
+            # one evaluation: an output already computed is returned as it is (each function once); otherwise the
+            # producer's result for the resolved arguments is entered and returned (cache-free path)
+            ProofItem(pipeline_call.run, gen=pipeline_call.run_gen)]
 
 
 def _cases(tier, rng):
